@@ -20,6 +20,11 @@ func v6() []*big.Int {
 }
 func v3() []*big.Int { return []*big.Int{big.NewInt(0), big.NewInt(32), dec(pow2(256))} }
 
+// vMem adds sizes whose quadratic memory cost is affordable but not negligible (1 KiB, 64 KiB, 512 KiB).
+func vMem() []*big.Int {
+	return append(v6(), big.NewInt(1024), big.NewInt(1<<16), big.NewInt(1<<19))
+}
+
 // pushOf spells PUSH1 for small values, PUSH8 for 64-bit ones and PUSH32 for the rest.
 func pushOf(v *big.Int) []byte {
 	b := v.Bytes()
@@ -69,6 +74,7 @@ func alphabet() []symbol {
 	for _, v := range v6() {
 		a = append(a, symbol{"PUSH" + v.Text(16), pushOf(v)})
 	}
+	a = append(a, symbol{"PUSH3-64KiB", []byte{0x62, 0x01, 0x00, 0x00}})
 	a = append(a, symbol{"PUSH32-truncated", []byte{0x7f, 0xff, 0xff}})
 	raw := []struct {
 		n string
@@ -187,20 +193,27 @@ func callTargets() []*big.Int {
 func singleOps(thorough bool) [][]byte {
 	var out [][]byte
 	V := v6()
-	mem := func(a *[]byte) {} // placeholder to keep gofmt quiet about unused helpers
-	_ = mem
+	M := vMem()
 	for _, op := range []byte{opBALANCE, opEXTCODESIZE, opBLOCKHASH, opSLOAD, opSELFDESTRUCT, opMLOAD, opJUMP, opCALLDATALOAD} {
 		for _, t := range tuples(append(V, addrWord(addrSuicide), addrWord(addrNone), big.NewInt(3)), 1) {
 			out = append(out, opWith(op, t))
 		}
 	}
-	for _, op := range []byte{opMSTORE, opMSTORE8, opSHA3, opSSTORE, opRETURN, opREVERT, opJUMPI, opLOG0} {
+	for _, t := range tuples(M, 1) {
+		out = append(out, opWith(opMLOAD, t))
+	}
+	for _, op := range []byte{opMSTORE, opMSTORE8, opSHA3, opRETURN, opREVERT, opLOG0} {
+		for _, t := range tuples(M, 2) {
+			out = append(out, opWith(op, t))
+		}
+	}
+	for _, op := range []byte{opSSTORE, opJUMPI} {
 		for _, t := range tuples(V, 2) {
 			out = append(out, opWith(op, t))
 		}
 	}
 	for _, op := range []byte{opCALLDATACOPY, opCODECOPY, opRETURNDATACOPY, opLOG0 + 1, opCREATE} {
-		for _, t := range tuples(V, 3) {
+		for _, t := range tuples(M, 3) {
 			out = append(out, opWith(op, t))
 		}
 	}
@@ -228,7 +241,11 @@ func singleOps(thorough bool) [][]byte {
 	values := []*big.Int{big.NewInt(0), big.NewInt(1), dec(pow2(256))}
 	memArgs := tuples(v3(), 4)
 	if thorough {
-		memArgs = tuples([]*big.Int{big.NewInt(0), big.NewInt(32), dec(pow2(64)), dec(pow2(256))}, 4)
+		memArgs = tuples([]*big.Int{big.NewInt(0), big.NewInt(32), big.NewInt(1 << 16), dec(pow2(256))}, 4)
+	} else {
+		// a few affordable large ranges: input 64 KiB, output at 64 KiB, both 512 KiB
+		k64, k512, z, w32 := big.NewInt(1<<16), big.NewInt(1<<19), big.NewInt(0), big.NewInt(32)
+		memArgs = append(memArgs, []*big.Int{z, k64, z, z}, []*big.Int{z, z, k64, w32}, []*big.Int{z, k512, z, k512}, []*big.Int{k64, w32, k64, w32})
 	}
 	for _, op := range []byte{opCALL, opCALLCODE, opDELEGATECALL, opSTATICCALL} {
 		vals := values
